@@ -491,6 +491,29 @@ const SCENARIOS: &[(&str, &str)] = &[
     ("c := mut () ->  int () -> int { return 1 }; before := (*c)(); c = () -> int { return 2 }; (before, (*c)())", "(1, 2)"),
 ];
 
+/// `mut` written where it is evaluated once per run of the program: at top level, in a block, in a
+/// branch, in the condition of a loop, typed and untyped, over a literal, a bound constant and a
+/// computed value. The parsed program is run three times: every run starts from fresh cells.
+const FRESH_PER_RUN: &[(&str, &str)] = &[
+    ("c := mut 0; c += 1; *c", "1"),
+    ("c := mut int 5; c += 1; *c", "6"),
+    ("k := 7; c := mut k; c += 1; *c", "8"),
+    ("c := mut int | float 1; c = 2.5; *c", "f2.5"),
+    ("c := mut [int] []; c += [1]; *c", "[1]"),
+    ("c := mut [1]; c += [2]; *c", "[1, 2]"),
+    ("c := mut \"a\"; c += \"b\"; *c", "\"ab\""),
+    ("c := { mut 0 }; c += 1; *c", "1"),
+    ("c := if true { mut 0 } else { mut 10 }; c += 1; *c", "1"),
+    ("t := (mut 0, mut 0); x := t.0; x += 1; y := t.1; (*x, *y)", "(1, 0)"),
+    ("a := [mut 0]; x := a[0]; x += 1; *x", "1"),
+    ("s := struct{ f := mut 0 }; x := s.f; x += 1; *x", "1"),
+    ("c := mut mut 0; i := *c; i += 1; *(*c)", "1"),
+    ("n := mut 0; while *(mut 0) == 0 && *n < 2 { n += 1 }; *n", "2"),
+    ("get := () -> int { return *(mut 3) }; c := mut 0; c += get(); *c", "3"),
+    ("c := mut 0; bump := () -> int { c += 1; return *c }; (bump(), bump())", "(1, 2)"),
+    ("c := mut std.len([1, 2]); c += 1; *c", "3"),
+];
+
 fn scenarios(report: &mut Report) -> u64 {
     for (text, want) in SCENARIOS {
         let o = core::run_text(text, true, core::QUICK_FUEL);
@@ -505,7 +528,58 @@ fn scenarios(report: &mut Report) -> u64 {
             });
         }
     }
-    SCENARIOS.len() as u64
+    // one parsed program, several runs (also of the scenarios above): fresh cells every time, and
+    // a cell yielded by one run is not the cell yielded by another
+    let interp = Interpreter::with_stdlib();
+    let mut n = 0u64;
+    for (text, want) in FRESH_PER_RUN.iter().chain(SCENARIOS.iter()) {
+        let Ok(Ok(code)) = guard(|| Code::parse(&interp, text)) else {
+            report.violation(Violation { sig: format!("C13|fresh-per-run|not-accepted|{}", text.chars().take(50).collect::<String>().replace('|', "/")), detail: json!({"kind": "program", "stdlib": true, "text": text}) });
+            continue;
+        };
+        let mut seen = Vec::new();
+        for _ in 0..3 {
+            n += 1;
+            seen.push(match guard(|| code.exec()) {
+                Ok(Ok(v)) => canon(&v),
+                Ok(Err(e)) => format!("error:{}", core::exec_error_kind(&e)),
+                Err(_) => "panic".into(),
+            });
+        }
+        if seen.iter().any(|g| g != want) {
+            report.violation(Violation {
+                sig: format!("C13|fresh-per-run|{}", text.chars().take(60).collect::<String>().replace('|', "/")),
+                detail: json!({"kind": "program", "stdlib": true, "text": text, "note": "one Code::parse, three Code::exec", "expected_every_run": want, "observed_runs": seen}),
+            });
+        }
+    }
+    for text in ["mut 0", "c := mut int 5; c", "k := 1; mut k", "[mut 0]", "(mut 0, 1)", "{ mut 0 }"] {
+        let Ok(Ok(code)) = guard(|| Code::parse(&interp, text)) else { continue };
+        n += 2;
+        if let (Ok(Ok(a)), Ok(Ok(b))) = (guard(|| code.exec()), guard(|| code.exec())) {
+            let mut cells = (Vec::new(), Vec::new());
+            collect_cells(&a, &mut cells.0);
+            collect_cells(&b, &mut cells.1);
+            if cells.0.iter().any(|x| cells.1.contains(x)) || cells.0.is_empty() {
+                report.violation(Violation {
+                    sig: format!("C13|fresh-per-run|two-runs-yield-one-cell|{text}"),
+                    detail: json!({"kind": "program", "stdlib": true, "text": text, "note": "one Code::parse, two Code::exec: the cells in the two results must be different cells"}),
+                });
+            }
+        }
+    }
+    SCENARIOS.len() as u64 + n
+}
+
+/// addresses of the cells reachable from a value (through arrays, tuples, structs)
+fn collect_cells(v: &Variable, out: &mut Vec<usize>) {
+    match v {
+        Variable::Mut(m) => out.push(Arc::as_ptr(m) as usize),
+        Variable::Array(a) => a.iter().for_each(|x| collect_cells(x, out)),
+        Variable::Tuple(t) => t.iter().for_each(|x| collect_cells(x, out)),
+        Variable::Struct(s) => s.values().for_each(|x| collect_cells(x, out)),
+        _ => {}
+    }
 }
 
 /// Cells created from values that reach the `mut` through a parameter or a capture: whatever
